@@ -314,6 +314,7 @@ def main_check(mod, argv):
     ap = argparse.ArgumentParser()
     ap.add_argument("--tier", default=os.environ.get("VERIF_TIER", "quick"), choices=["quick", "thorough"])
     ap.add_argument("--replay")
+    ap.add_argument("--rewrite", action="store_true", help="with --replay: store the observed signature/digest in the file")
     ap.add_argument("--jobs", type=int, default=int(os.environ.get("VERIF_JOBS", str(os.cpu_count() or 4))))
     ap.add_argument("--n", type=int, default=None, help="override number of cases")
     ap.add_argument("--no-evidence", action="store_true")
@@ -324,7 +325,7 @@ def main_check(mod, argv):
         seed, prop, a.tier, REPO, os.environ.get("PYTHONHASHSEED")), flush=True)
     try:
         if a.replay:
-            return _main_replay(mod, a.replay)
+            return _main_replay(mod, a.replay, a.rewrite)
         return _main_run(mod, a, seed)
     except HarnessError as e:
         print("HARNESS-ERROR property=%s %s" % (prop, str(e)[-2000:]), flush=True)
@@ -333,8 +334,15 @@ def main_check(mod, argv):
         cleanup_scratch()
 
 
-def _main_replay(mod, path):
+def _main_replay(mod, path, rewrite=False):
     data, res, sigs = replay_file(mod, path)
+    if rewrite and res["violations"]:
+        data["signature"] = sigs[0]
+        data["violation"] = res["violations"][0]
+        data["digest"] = res.get("digest")
+        data["recorded_against"] = REPO
+        with open(path, "w") as f:
+            json.dump(data, f, indent=1, sort_keys=True, default=repr)
     want = data.get("signature")
     print("replay: expected signature: %s" % want)
     print("replay: observed signatures: %s" % sigs)
